@@ -20,7 +20,8 @@ TECHNIQUE = (
 LEVEL_TEXT = (
     "Histories of 8-30 operations over 1-4 Task objects covering all 16 combinations of restart_after_reconnect x wait_for_connection x "
     "wait_before_start {0,>0} x repeat_after {None,value}, sync / async / never-ending targets that propagate cancellation, swallow it and "
-    "return (at once / after one more await), re-arm their own task via start_task or remove it via remove_task from inside, raise, or "
+    "return (at once / after one more await), re-arm their own task via start_task / Task.restart() / Task.reconnected(), remove it via remove_task or cancel it via "
+    "Task.cancel() from inside, raise, or "
     "finish exactly in the instant of a state change; operations at the same instant (with and "
     "without a loop turn in between), just before / after the wait_before_start expiry, CONNECTED/CONNECTING/DISCONNECTED transitions, "
     "registry stop followed by further state changes. Exploration: histories are sampled."
@@ -43,13 +44,19 @@ EPS = 1e-6
 OPTION_SETS = list(itertools.product((False, True), (False, True), (0, 1), (0, 1)))  # restart, wait_conn, wbs>0, repeat
 
 
+# what a target may do to its own task from inside (once per user start): replaced by a new instance / removed / just cancelled
+SELF_RESTARTS = ("rearm", "restart_self", "reconnected_self")
+SELF_ACTIONS = (*SELF_RESTARTS, "selfremove", "cancel_self")
+
+
 class Probe:
     """Instrumented target of one Task.
 
     behaviour: None (propagates cancellation, never touches the registry) | "swallow" (catches CancelledError and returns at
     once) | "swallow_await" (catches it, awaits one more loop turn, returns) | "rearm" (calls start_task(own task) from inside
     the target, once per driver start) | "selfremove" (calls remove_task(own task) from inside, once per driver start) |
-    "raises" (ends with an ordinary exception).
+    "raises" (ends with an ordinary exception) | "restart_self" / "reconnected_self" / "cancel_self" (calls Task.restart() /
+    Task.reconnected() / Task.cancel() on its own Task object from inside, once per driver start).
     """
 
     def __init__(self, idx: int, kind: str, dur, log: list, slow_cleanup: bool, behaviour: str | None = None) -> None:
@@ -82,13 +89,21 @@ class Probe:
 
     def _act(self) -> bool:
         """What a target does to its own task from inside.  True if it cancelled itself that way."""
-        if self.behaviour in ("rearm", "selfremove") and self.budget > 0 and self.task in self.registry.tasks:
+        if self.behaviour in SELF_ACTIONS and self.budget > 0 and self.task in self.registry.tasks:
+            if self.behaviour == "reconnected_self" and not self.task.restart_after_reconnect:
+                return False  # Task.reconnected() does nothing for such a task
             self.budget -= 1
             self.log.append((self._now(), self.behaviour, self.idx, None))
             if self.behaviour == "rearm":
                 self.registry.start_task(self.task)
-            else:
+            elif self.behaviour == "selfremove":
                 self.registry.remove_task(self.task)
+            elif self.behaviour == "restart_self":
+                self.task.restart()  # the Task object's own entry point
+            elif self.behaviour == "reconnected_self":
+                self.task.reconnected()
+            else:  # cancel_self
+                self.task.cancel()
             return True
         return False
 
@@ -145,7 +160,8 @@ def gen_case(rng: random.Random, index: int) -> dict:
     tasks = []
     for j in range(ntasks):
         restart, waitc, w, rep = OPTION_SETS[(index + 5 * j) % 16] if j == 0 else rng.choice(OPTION_SETS)
-        behaviour = rng.choices((None, "swallow", "swallow_await", "rearm", "selfremove", "raises"), (52, 12, 9, 12, 7, 8))[0]
+        behaviour = rng.choices((None, "swallow", "swallow_await", "rearm", "selfremove", "raises", "restart_self",
+                                 "reconnected_self", "cancel_self"), (42, 11, 8, 9, 6, 6, 9, 4, 5))[0]
         target = rng.choice(("sync", "async0", "async", "async", "forever"))
         if behaviour in ("swallow", "swallow_await") and rep:
             behaviour = None  # a repeating task whose target swallows cancel() can never be stopped: the target's doing
@@ -293,7 +309,7 @@ def judge(ctx, case, log, marks, wit) -> None:
                 ctx.count("cancellation_swallowed_then_ended_normally")
             elif kind == "exit:raised":
                 ctx.count("target_raised")
-            elif kind in ("rearm", "selfremove"):
+            elif kind in SELF_ACTIONS:
                 ctx.count(kind + "_from_inside_target")
             if kind == "exit:normal" and any(abs(t - tt) < 1e-9 for tt in transition_times):
                 ctx.count("target_finished_in_the_instant_of_a_state_change")
@@ -359,15 +375,18 @@ def judge(ctx, case, log, marks, wit) -> None:
             # what the target did to its own task since the previous operation (start_task / remove_task from inside)
             for lp in range(prev_pos, m["pos"]):
                 lt, lkind, lidx, _x = log[lp]
-                if lidx != j or lkind not in ("rearm", "selfremove"):
+                if lidx != j or lkind not in SELF_ACTIONS:
                     continue
                 state_then = marks[mi - 1]["state"] if mi else None
-                if lkind == "selfremove":
+                if lkind in ("selfremove", "cancel_self"):
                     if mode == "judged-start":
                         close_window(lp, lt, "remove_task-from-target", mi - 1, by_target=True)
-                    registered = False
+                    if lkind == "selfremove":
+                        registered = False
+                    # a task cancelled from inside stays registered: the next reconnection / start_task starts it again
                     mode = "expect-none"
-                    win_start = (lp + 1, lt, max(mi - 1, 0), "expect-none", "remove_task-from-target")
+                    win_start = (lp + 1, lt, max(mi - 1, 0), "expect-none",
+                                 "remove_task-from-target" if lkind == "selfremove" else "cancel-from-target")
                 elif mode == "judged-start":
                     close_window(lp, lt, "start_task-from-target", mi - 1, by_target=True)
                     if state_then == CONNECTED:
@@ -454,7 +473,9 @@ def run(ctx):
                 "user_start_while_disconnected_not_judged", "cancellation_swallowed_then_ended_normally",
                 "rearm_from_inside_target", "selfremove_from_inside_target", "target_raised",
                 "target_finished_in_the_instant_of_a_state_change", "no_instance_after_remove_task-from-target",
-                "behaviour_swallow", "behaviour_swallow_await", "behaviour_rearm", "behaviour_selfremove", "behaviour_raises")
+                "behaviour_swallow", "behaviour_swallow_await", "behaviour_rearm", "behaviour_selfremove", "behaviour_raises",
+                "restart_self_from_inside_target", "reconnected_self_from_inside_target", "cancel_self_from_inside_target",
+                "no_instance_after_cancel-from-target")
     n = ctx.scale(3000, 240000)
     for i in range(n):
         if ctx.mine(i):
